@@ -294,12 +294,17 @@ class Monitor(threading.Thread):
         if len(client._expecting) != 0:
             return None
         waiting = []
+        # prefetch threads are recognised by their thread name ("Thread-N (_prefetch_thread)"), so that one
+        # which has been started but has not reached its target function yet counts as runnable
+        names = {t.ident: (t.name or "") for t in threading.enumerate()}
         for ident, fr in frames.items():
             if ident == self.main_ident or ident == self.ident:
                 continue
             stk = _stack(fr)
             pf = [x for x in stk if x.f_code.co_name == "_prefetch_thread" and x.f_code.co_filename.endswith("sftp_file.py")]
             if not pf:
+                if "_prefetch_thread" in names.get(ident, "_prefetch_thread?"):
+                    return None  # starting up / winding down / unknown thread: possibly runnable
                 continue
             if stk[0] is not pf[0]:
                 return None  # inside _async_request / send: runnable
@@ -745,7 +750,7 @@ def _open_known():
 def run(ctx):
     ctx.set_budget(75, 850)
     known = _open_known()
-    ctx.explore(case_st, lambda c: process(ctx, c, known), ctx.scale(300, 6000), shrink=False)
+    ctx.explore(case_st, lambda c: process(ctx, c, known), ctx.scale(800, 8000), shrink=False)
 
 
 def replay(ctx, case):
